@@ -168,7 +168,7 @@ func (r *rs) r2() {
 			}
 		}
 		if tagCall != nil && bodyCall != nil {
-			if p, ok := ge.Find(bodyCall); ok {
+			if p, ok := flow.PointOf(ge, bodyCall); ok {
 				a.ordered, _ = ge.Dominated(p, flow.CallOn(ge, func(call *ast.CallExpr) bool { return call == tagCall }))
 			}
 			// the payload is the matched value's field
@@ -205,8 +205,8 @@ func (r *rs) r2() {
 	if len(calls) != 1 || depth == nil {
 		c.Undecidedf("R2.depth", "inline-fallback", decodeResp.Decl.Pos(), "expected exactly one call of decodeSingleLineBulkBytesArray in decodeResp, found %d", len(calls))
 	} else {
-		inDefault := deflt != nil && deflt.Pos() <= calls[0].Pos() && calls[0].End() <= deflt.End()
-		p, found := gd.Find(calls[0])
+		inDefault := deflt != nil && flow.Contains(deflt, calls[0])
+		p, found := flow.PointOf(gd, calls[0])
 		if !inDefault || !found {
 			c.Undecidedf("R2.depth", "inline-fallback", calls[0].Pos(), "the inline-command fallback is not in the default arm of the tag switch")
 		} else {
